@@ -576,6 +576,11 @@ func (idx *indexer) mapKey(key []byte, vLen int, vOff int64, hVal [sha256.Size]b
 		return key, nil
 	}
 
+	err = idx.store.validateValueLen(vLen)
+	if err != nil {
+		return nil, err
+	}
+
 	buf := idx.valBuffer(vLen)
 	_, err = idx.store.readValueAt(buf, vOff, hVal, false)
 	if err != nil {
